@@ -24,6 +24,8 @@ impl<'a, AB: ArrivalBound> DeltaMinIterator<'a, AB> {
 
     fn advance(&mut self) {
         while self.step_count < self.next_count {
+            #[cfg(feature = "verif")]
+            crate::verif_hooks::tick("arrival::delta_min_iter");
             self.next_step = self.steps.next();
             if let Some(delta) = self.next_step {
                 self.step_count = self.ab.number_arrivals(delta);
